@@ -2,13 +2,10 @@
 #include "c11_csr_ops.h"
 namespace c11 {
 void registerCsrA() {
-#if 0 // full matrix: see c11_x_*.cpp
-  regCsrOptions<void>(O_ALL, O_ALL);
-#else
   regCsr<Csr<void, false, false, false>>("lock", O_ALL);
   regCsr<Csr<void, true, true, false>>("nolock+numa", O_CORE | O_MANUAL);
   regCsr<Csr<void, false, true, true>>("ool+numa", O_CORE);
   regCsr<Csr<uint32_t, false, false, false>>("lock", O_ALL);
-#endif
+  regCsr<Csr<uint32_t, false, true, false>>("lock+numa", O_ALL);
 }
 } // namespace c11
